@@ -737,9 +737,9 @@ func partC11(a *hcli.Args, rep *report.Report, univName string, u *schema.Univer
 	}
 	// ---- partial updates
 	sp := rep.S("partial-updates")
-	sp.Bounds = "records P4, PWithInc, P2, PInner, PLeaf (includes two levels deep), POuterRec (record-typed field inherited through an include): every assignment of a subset of {delete, set, nested patch} to each field (nested patches: quick = a family of legal and illegal ones, thorough = every non-empty nested patch) x exclusion specs {none, one field, a nested field}; encode errors iff illegal, legal patches produce the reference patch / $set / $delete document and round-trip; decoding the reference document of an illegal patch errors"
+	sp.Bounds = "records P4, PWithInc, P2, PInner, PLeaf (includes two levels deep), POuterRec (record-typed field inherited through an include), PViaHollow (fields inherited through a record without fields of its own): every assignment of a subset of {delete, set, nested patch} to each field (nested patches: quick = a family of legal and illegal ones, thorough = every non-empty nested patch) x exclusion specs {none, one field, a nested field}; encode errors iff illegal, legal patches produce the reference patch / $set / $delete document and round-trip; decoding the reference document of an illegal patch errors"
 	item := 0
-	for _, rn := range []string{"P4", "PWithInc", "P2", "PInner", "PLeaf", "POuterRec"} {
+	for _, rn := range []string{"P4", "PWithInc", "P2", "PInner", "PLeaf", "POuterRec", "PViaHollow"} {
 		t := u.ByName[rn]
 		rt := Reg[rn+"_PartialUpdate"]
 		if rt == nil {
